@@ -54,6 +54,30 @@ good_params = st.one_of(
     st.lists(gen.json_values(6), max_size=3).map(tuple),
     st.dictionaries(gen.json_keys(), gen.json_values(6), max_size=3),
 )
+import decimal  # noqa: E402
+import enum  # noqa: E402
+
+
+class _Bean(object):
+    def __init__(self):
+        self.x = 1
+
+
+class _Colour(enum.Enum):
+    RED = 1
+
+
+# values that are not list/tuple/dict but which the class translator can convert
+convertible_params = st.sampled_from(["<SET>", "<FROZENSET>", "<BEAN>", "<DECIMAL>", "<ENUM>", "<OBJECT>", "<BYTES>"])
+
+
+def materialise(p):
+    if isinstance(p, str) and p.startswith("<") and p.endswith(">") and p != ABSENT:
+        return {"<SET>": {1, 2}, "<FROZENSET>": frozenset([1]), "<BEAN>": _Bean(), "<DECIMAL>": decimal.Decimal("1.5"),
+                "<ENUM>": _Colour.RED, "<OBJECT>": object(), "<BYTES>": b"raw"}[p]
+    return p
+
+
 scalar_params = st.one_of(st.integers(-3, 3), st.text(max_size=3), st.booleans(), st.floats(allow_nan=False, allow_infinity=False, width=16))
 rpcids = st.one_of(
     st.none(), st.just(""), st.just(0), st.just(0.0), st.just(-0.0),
@@ -70,7 +94,7 @@ flags = st.sampled_from([None, False, True])
 def message_cases(draw):
     kind = draw(st.sampled_from(["dumps", "dumps", "dump"]))
     method = draw(st.one_of(methods, methods, methods, bad_methods))
-    params = draw(st.one_of(good_params, good_params, good_params, scalar_params))
+    params = draw(st.one_of(good_params, good_params, good_params, scalar_params, convertible_params))
     return {
         "kind": kind,
         "method": method,
@@ -102,7 +126,7 @@ def fault_cases(draw):
 
 def grid_cases(tier):
     """Exhaustive over the discrete part"""
-    plist = [ABSENT, None, [], (), {}, [1], (0,), {"a": None}, [[]], 5, "s"]
+    plist = [ABSENT, None, [], (), {}, [1], (0,), {"a": None}, [[]], 5, "s", "<SET>", "<BEAN>", "<DECIMAL>"]
     ids = [None, "", 0, 0.0, 7, -1.5, "x"]
     meths = ["m", None, 3]
     for kind in ("dumps", "dump"):
@@ -145,9 +169,9 @@ def oracle_message(case):
     method, params, rpcid = case["method"], case["params"], case["rpcid"]
     version, resp, notify = case["version"], case["resp"], case["notify"]
     kw = {"methodname": method, "rpcid": rpcid, "version": version, "config": cfg}
-    if params != ABSENT or isinstance(params, (list, tuple, dict)):
-        if not (isinstance(params, str) and params == ABSENT):
-            kw["params"] = params
+    if not (isinstance(params, str) and params == ABSENT):
+        kw["params"] = materialise(params)
+    special = isinstance(params, str) and params.startswith("<") and params != ABSENT
     if case["kind"] == "dumps":
         kw["methodresponse"], kw["notify"] = resp, notify
         func = J.dumps
@@ -168,6 +192,12 @@ def oracle_message(case):
         invalid = "response without id"
 
     classes = ["v%.1f" % effver, case["kind"]]
+    if special:
+        classes.append("params:" + params)
+        if invalid is None:
+            # e.g. a response carrying a bean/Decimal result: object translation is C07's subject
+            from vlib.core import Skip
+            raise Skip()
     try:
         out = func(**kw)
     except (TypeError, ValueError) as ex:
